@@ -33,6 +33,7 @@ type p2Case struct {
 	RecDamaged  bool          `json:"recdamaged,omitempty"` // C03: a recovery file was damaged (not as Create wrote it): Verify may refuse with an error, but a verdict must count exactly the blocks that are still intact
 	PriorBad    int           `json:"priorbad,omitempty"`   // history inside the process: right before (no Create in between) a Verify (1) / Repair (2) of a copy of the set in which one recovery packet has a wrong hash (1, 2) or the index is cut short (3: Verify)
 	Dec         *decProtoCase `json:"dec,omitempty"`        // C03: operation sequences with failing loads / interrupted Repairs on ONE Decoder object (decproto.go)
+	Order       []int         `json:"order,omitempty"`      // C16: slice sizes a fresh process handles in this order (see c16SizeOrder)
 	Stale       int           `json:"stale,omitempty"`      // beside every recovery file s.volAA+BB.par2 lies s.volAA+<BB+2>.par2 (1) / s.vol<AA-1>+<BB+1>.par2 (2), a volume of ANOTHER set (other content, other set id) whose announced range covers it
 	List        int           `json:"list,omitempty"`       // directory listing order: 0 as the filesystem returns it (sorted), 1 descending
 	DiskTwin    bool          `json:"disktwin,omitempty"`   // additionally run the same directory through the exported API on a real directory and require the same observations
